@@ -18,6 +18,7 @@
 #include <stdio.h>
 #include <stdlib.h>
 
+#include <algorithm>
 #include <charconv>
 #include <memory>
 #include <vector>
@@ -388,6 +389,11 @@ bool ManifestParser::ParseEdge(string* err) {
     // build graph but that has since been fixed.  Filter them out to
     // support users of those old CMake versions.
     Node* out = edge->outputs_[0];
+    // Keep the order-only count in sync with the inputs that get filtered out
+    // (there are no implicit inputs, see maybe_phonycycle_diagnostic()).
+    edge->order_only_deps_ -= static_cast<int>(
+        count(edge->inputs_.end() - edge->order_only_deps_,
+              edge->inputs_.end(), out));
     vector<Node*>::iterator new_end =
         remove(edge->inputs_.begin(), edge->inputs_.end(), out);
     if (new_end != edge->inputs_.end()) {
